@@ -1,4 +1,5 @@
 """C19 - results do not depend on word size, build features or serialization medium."""
+import os
 import core
 from core import hx, gen_mag, gen_words_len
 
@@ -10,6 +11,8 @@ NCASES = {"quick": 2600, "thorough": 40000}
 CASE_TIMEOUT = {"quick": 30, "thorough": 120}
 # 64-bit words + debug assertions + std | no debug assertions | force_bits="32" | both | dashu-base without std
 CONFIGS = ["default", "release", "w32", "w32release", "nostd"]
+if os.environ.get("C19_CONFIGS"):       # sensitivity experiments only: a subset of the builds
+    CONFIGS = os.environ["C19_CONFIGS"].split(",")
 
 LEVEL_TEXT = ("Machine-checked Coq theorems about the binary serde formats (postcard): the word->byte encoder of convert.rs, "
               "modelled for an arbitrary WORD_BYTES = k, produces the shortest little-endian byte string of the VALUE (a function "
@@ -58,6 +61,8 @@ def canon_answer(ans):
         return "ok bounds"          # judged as bounds in each build, legitimately different (std vs table estimator)
     if ans.startswith("ok config"):
         return "ok config"
+    if ans.startswith("panic Undocumented:"):
+        return "panic Undocumented"  # an undocumented panic in both builds: the message text may differ (std vs no_std estimator)
     return ans
 
 
@@ -364,11 +369,17 @@ def gen_cases(rng, tier, n):
             if ty in ("ubig", "ibig"):
                 v = gint(rng, tier, ty == "ibig", big=rng.chance(1, 8))
                 if rng.chance(1, 3) and v:
-                    v = (1 << (abs(v).bit_length() - 1)) + rng.choice([0, 1, -1])
+                    nb = abs(v).bit_length()
+                    v = (1 << (nb - 1)) + rng.choice([0, 1, -1, (1 << max(0, nb - 16)) - 1, rng.bits(max(1, nb - 16))])
                 out.append("log2b %s %s" % (ty, hx(v if ty == "ibig" else abs(v))))
             elif ty in ("u8", "u16", "u32", "u64", "u128", "i64"):
                 bits = {"u8": 8, "u16": 16, "u32": 32, "u64": 64, "u128": 128, "i64": 63}[ty]
                 v = rng.choice([0, 1, 2, 3, (1 << bits) - 1, 1 << (bits - 1), (1 << (bits - 1)) + 1, rng.bits(bits), rng.bits(bits) >> rng.below(bits)])
+                if bits >= 32 and rng.chance(1, 3):
+                    # the table estimator looks at the top 16 bits: a power of two there with large / random low bits
+                    top = rng.choice([0x8000, 0x8000, 0x8001, 0xFFFF, 0xC000, 0xB504])
+                    nb = rng.range(17, bits)
+                    v = (top << (nb - 16)) | rng.choice([(1 << (nb - 16)) - 1, rng.bits(nb - 16), 1, 0])
                 out.append("log2b %s %x" % (ty, v))
             elif ty == "f32":
                 out.append("log2b f32 %x" % rng.choice([0, 1, 0x3F800000, 0x3F800001, 0x3F7FFFFF, 0x7F7FFFFF, 0x00800000, 0x007FFFFF, 0x7F800000, 0x7FC00000, 0xBF800000, rng.bits(31)]))
